@@ -4299,6 +4299,13 @@ impl Command {
     /// Call this on the top-level [`Command`] when done building and before reading state for
     /// cases like completions, custom help output, etc.
     pub fn build(&mut self) {
+        // May have been built by an earlier parse, which skips the help tree
+        self._expand_help_tree();
+        self._build_for_flatten_help();
+    }
+
+    /// Build everything below `self`, leaving `self` the way it was built for parsing
+    pub(crate) fn _build_for_flatten_help(&mut self) {
         self._build_recursive(true);
         self._build_bin_names_internal();
     }
